@@ -107,6 +107,21 @@ def run(tier):
     specs += [dict(fn='repk_%s' % n, twin='repk_%s_reach' % n, replay=mk_replay(c)) for n, c in classes]
     ch_obligations(run, path, specs, cond_to=150 if tier == 'quick' else 900, path_to=30)
     run.extra['node_classes'] = sorted(set(c for n, c in classes))
+    # leaves: node kinds without node children (constants of every value kind, INTERVAL, variables, placeholders, raw data ..) in four parent positions
+    try:
+        from harness import c13lib as _c13
+        n_, pr_ = _c13.leaf_steps()
+        run.validated += n_
+        seen_ = set()
+        for p_ in pr_:
+            k_ = p_.split(':')[0]
+            if k_ in seen_:
+                continue
+            seen_.add(k_)
+            run.counterexample('walker:leaf:%s' % k_, 'query_traversal: %s' % p_, {'leaf_step': p_}, True)
+        run.ob('leaf-steps:%d walks' % n_, 'counterexample' if pr_ else 'discharged', None)
+    except Exception as e:  # noqa
+        run.error('leaf steps crashed: %r' % e)
     run.finish()
 
 
@@ -130,6 +145,12 @@ def unknown_classes():
 def replay(path):
     r = json.load(open(path))
     print(json.dumps(r, indent=1))
+    if r['replay'].get('leaf_step'):
+        from harness import c13lib as _c13
+        n_, pr_ = _c13.leaf_steps()
+        hit = [p_ for p_ in pr_ if p_.split(':')[0] == r['replay']['leaf_step'].split(':')[0]]
+        print('native replay now: reproduced=%s %s' % (bool(hit), hit[:1]))
+        return 1 if hit else 0
     cls = r['replay']['harness'].replace('step_', '').replace('repk_', '').split('_m')[0]
     rep, info, key, what = mk_replay(cls)(r['replay']['args'])
     print('native replay now: reproduced=%s %s' % (rep, json.dumps(info, default=repr)))
